@@ -7,6 +7,39 @@ from . import facts
 from .rules import common
 
 
+def normal_forms():
+    """positive examples for the load-time normal forms (they must keep rewriting what they claim to rewrite)"""
+    from . import inline
+    from .facts import normalise_tree
+    L = lambda v: {"k": "lit", "lk": "int", "v": v}
+    loc = lambda i: {"k": "local", "name": "x%d" % i, "id": i}
+    # return elimination: { if c { return 1 } ; 2 }  ->  if c { 1 } else { 2 }
+    body = {"k": "block", "stmts": [{"k": "semi", "e": {"k": "if", "cond": loc(1), "then": {
+        "k": "block", "stmts": [{"k": "semi", "e": {"k": "ret", "e": L(1)}}], "expr": None}}}], "expr": L(2)}
+    out = inline.eliminate_returns(body, "i32")
+    assert out is not None and not inline._has_ret(out), "return elimination"
+    iff = out["expr"]
+    assert iff["k"] == "if" and iff["then"]["expr"]["v"] == 1 and iff["else"]["expr"]["v"] == 2, "return elimination shape"
+    assert iff["then"]["expr"].get("was_ret"), "early exits stay marked"
+    # a return inside a loop is not eliminated
+    lp = {"k": "block", "stmts": [{"k": "loop", "lid": 9, "body": {"k": "block", "stmts": [
+        {"k": "semi", "e": {"k": "ret", "e": L(1)}}], "expr": None}}], "expr": L(2)}
+    assert inline.eliminate_returns(lp, "i32") is None, "loop returns must not be eliminated"
+    # case-of-case: if let Some(v) = (if c { Some(1) } else { None }) { T }  ->  if c { let v = 1; T } else { }
+    some = {"k": "call", "cdk": "Ctor(Variant, Fn)", "callee": "std::prelude::v1::Some", "args": [L(1)]}
+    none = {"k": "def", "dk": "Ctor(Variant, Const)", "path": "std::prelude::v1::None"}
+    n = {"k": "if", "cond": {"k": "letexpr", "pat": {"k": "ptstruct", "path": "std::prelude::v1::Some", "ps": [
+        {"k": "pbind", "name": "v", "id": 5, "mode": "BindingMode(No, Not)"}]},
+        "init": {"k": "if", "cond": loc(1), "then": some, "else": none}}, "then": {"k": "block", "stmts": [], "expr": loc(5)}}
+    r = normalise_tree(n)
+    assert r["k"] == "if" and r.get("case_of_case") and r["cond"]["k"] == "local", "case of case"
+    assert r["then"]["k"] == "block" and r["then"]["stmts"][0]["k"] == "let" and r["then"]["stmts"][0]["init"]["v"] == 1
+    # write!(w, ..) == w.write_all(format!(..).as_bytes())
+    w = {"k": "mcall", "callee": "std::io::Write::write_fmt", "name": "write_fmt", "recv": loc(2), "args": [loc(3)]}
+    r = normalise_tree(w)
+    assert r["callee"] == "std::io::Write::write_all" and r["args"][0]["recv"]["callee"] == "alloc::fmt::format"
+
+
 def main():
     facts.ensure_driver()
     assert os.path.exists(facts.DRIVER), "driver missing"
@@ -19,7 +52,8 @@ def main():
             n += 1
         except ModuleNotFoundError:
             pass
-    print("kmtlint selfcheck ok: driver present, %d rule modules import" % n)
+    normal_forms()
+    print("kmtlint selfcheck ok: driver present, %d rule modules import, normal forms behave" % n)
     return 0
 
 
